@@ -718,6 +718,15 @@ fn stage_ok(name: &str, extra: Value) -> Value {
     Value::Object(m)
 }
 
+/// Accessors of the stage objects are code under test as well: a panic anywhere in the staged run is an outcome
+/// (a stage event with res = "panic"), never a crash of the harness.
+fn staged_guarded(f: impl FnOnce(&mut Oracle) -> Vec<Value>, oracle: &mut Oracle) -> Vec<Value> {
+    match guarded(|| f(oracle)) {
+        Ok(v) => v,
+        Err(p) => vec![stage_err("StageCanon", Err(&p), json!({"cpath": [], "cquery": [], "bodyhash": []}))],
+    }
+}
+
 /// The same request stage by stage through the `unstable` API, exposing each stage's state.
 fn run_staged<S: SignedHeaderRequirements>(
     req: http::Request<Bytes>,
@@ -911,11 +920,11 @@ pub fn run(case: &Value) -> Vec<Value> {
     let (end, staged) = match &reqs {
         Reqs::Slice(a, i, p) => {
             let r = SliceSignedHeaderRequirements::new(a, i, p);
-            let st = run_staged(req2, &cfg, &script, &r, &mut oracle);
+            let st = staged_guarded(|o| run_staged(req2, &cfg, &script, &r, o), &mut oracle);
             (run_e2e(req, &cfg, &script, &r, events.clone()), st)
         }
         Reqs::Vecr(v) => {
-            let st = run_staged(req2, &cfg, &script, v, &mut oracle);
+            let st = staged_guarded(|o| run_staged(req2, &cfg, &script, v, o), &mut oracle);
             (run_e2e(req, &cfg, &script, v, events.clone()), st)
         }
     };
